@@ -119,6 +119,8 @@ def run_case(cs):
     if cs.seed_str.endswith(":0"):
         _contracts_under_repo_tests(cs)
     k = rng.random()
+    if cs.seed_str.endswith((":0", ":1")):
+        k = 0.0  # the huge model object of this run
     if k < 0.55:
         _model_manifest(cs)
     elif k < 0.7:
@@ -175,8 +177,14 @@ def _model_manifest(cs):
     if rng.random() < 0.04:
         nrec = rng.randint(250, 500)  # a manifest of well over 32 KiB (the reader works in blocks)
         cs.count("big_model_objects")
+    huge = cs.seed_str.endswith((":0", ":1"))
+    if huge:
+        nrec = 4200 + rng.randint(0, 300)  # more records than any block size a writer might batch by
+        cs.count("model_objects_over_4096_records")
     for i in range(nrec):
         p, pcls = _relpath(rng)
+        if huge:
+            p = "bulk/%05d-%s" % (i, p.replace("/", "_")[:30])
         if p in used or p == ".":
             continue
         used.add(p)
